@@ -134,6 +134,7 @@ CloseContainer(r) ==
 ArrayClass(at) == IF at \in {"string", "rid"} THEN "key" ELSE IF at = "rref" THEN "rref" ELSE "other"
 ArrayKid(at, bytes) == IF at \in {"string", "rid"} THEN <<at, "", bytes>> ELSE <<>>
 RLenOK(r, n) == ~(n > r.lim.abytes /\ r.lim.abytes > 0)
+MediaTypeLen(mt) == CASE mt = "" -> 0 [] mt = "a" -> 1 [] mt = "a/b" -> 3 [] OTHER -> 3
 
 WholeArray(r, e) ==
   LET at == e.at
@@ -143,7 +144,9 @@ WholeArray(r, e) ==
       sized == e.m = "OnArray" \/ e.m = "OnMedia" \/ e.m = "OnCustomBinary"
       okCount == ~sized \/ Len(e.bytes) = RBytes(at, e.count)
       okText == at \notin RTextTypes \/ U8Valid(e.bytes)
+      okMTLen == e.m # "OnMedia" \/ RLenOK(r, MediaTypeLen(e.mt))      \* a media type is a byte array of the document
   IN IF ~okAPI THEN RFail(r, "api")
+     ELSE IF ~okMTLen THEN RFail(r, "limit")
      ELSE IF ~okMT THEN RFail(r, "array")
      ELSE LET r1 == RThen(CountObj(r), LAMBDA t : Offer(t, ArrayClass(at))) IN
           RThen(r1, LAMBDA t : IF ~RLenOK(t, Len(e.bytes)) THEN RFail(t, "limit")
@@ -156,6 +159,7 @@ BeginArrayR(r, e) ==
                  [] e.m = "OnCustomBegin" -> at \in {"cbin", "ctxt"}
                  [] OTHER -> TRUE
   IN IF ~okAPI THEN RFail(r, "api")
+     ELSE IF e.m = "OnMediaBegin" /\ ~RLenOK(r, MediaTypeLen(e.mt)) THEN RFail(r, "limit")
      ELSE IF e.m = "OnMediaBegin" /\ ~e.mtok THEN RFail(r, "array")
      ELSE RThen(RThen(CountObj(r), LAMBDA t : Offer(t, ArrayClass(at))),
                 LAMBDA t : RPush(t, [Frame("arr") EXCEPT !.at = at]))
